@@ -1,0 +1,72 @@
+//go:build verif
+
+// Machine-checked contracts for govc (see /verif/DESIGN.md). Comments only;
+// compiled only with the build tag "verif".
+
+package errorhandler
+
+// ---- C12 (Envoy gRPC side): every failure becomes a denied response with the status of its kind ----
+
+// a denied response carrying the given HTTP status; details only when verbose
+//@ func errorResponse
+//@   props C12
+//@   ensures ret0 != nil && ret0.Status != nil && (grpcCode < 1000 ==> ret0.Status.Code == grpcCode)
+//@   ensures typeIs(ret0.HttpResponse, *envoy_auth.CheckResponse_DeniedResponse) && unbox(ret0.HttpResponse, *envoy_auth.CheckResponse_DeniedResponse) != nil
+//@   ensures unbox(ret0.HttpResponse, *envoy_auth.CheckResponse_DeniedResponse).DeniedResponse != nil && unbox(ret0.HttpResponse, *envoy_auth.CheckResponse_DeniedResponse).DeniedResponse.Status != nil
+//@   ensures 0 <= httpCodeOverride && httpCodeOverride < 1000 ==> unbox(ret0.HttpResponse, *envoy_auth.CheckResponse_DeniedResponse).DeniedResponse.Status.Code == httpCodeOverride
+//@   ensures !verbose ==> len(unbox(ret0.HttpResponse, *envoy_auth.CheckResponse_DeniedResponse).DeniedResponse.Body) == 0 && len(unbox(ret0.HttpResponse, *envoy_auth.CheckResponse_DeniedResponse).DeniedResponse.Headers) == 0
+
+//@ spec deniedStatus(r any) int = unbox(unbox(r, *envoy_auth.CheckResponse).HttpResponse, *envoy_auth.CheckResponse_DeniedResponse).DeniedResponse.Status.Code
+//@ spec isDenied(r any) bool = typeIs(r, *envoy_auth.CheckResponse) && unbox(r, *envoy_auth.CheckResponse) != nil && typeIs(unbox(r, *envoy_auth.CheckResponse).HttpResponse, *envoy_auth.CheckResponse_DeniedResponse)
+
+//@ func responseWith$1
+//@   props C12
+//@   ensures ret1 == nil && isDenied(ret0)
+//@   ensures 0 <= old(*httpCodeOverride) && old(*httpCodeOverride) < 1000 ==> deniedStatus(ret0) == old(*httpCodeOverride)
+
+//@ func responseWith
+//@   props C12
+//@   modifies nothing
+//@   ensures fvinit(ret0, responseWith$1, httpCodeOverride) == httpCodeOverride && fvinit(ret0, responseWith$1, grpcCode) == grpcCode
+
+// overrides: the status configured for that kind (0 = not configured)
+//@ func WithAuthenticationErrorCode$1
+//@   props C12
+//@   ensures old(*code) > 0 ==> fvinit(o.authenticationError, responseWith$1, httpCodeOverride) == old(*code)
+//@   ensures old(*code) <= 0 ==> o.authenticationError == old(o.authenticationError)
+//@ func WithAuthorizationErrorCode$1
+//@   props C12
+//@   ensures old(*code) > 0 ==> fvinit(o.authorizationError, responseWith$1, httpCodeOverride) == old(*code)
+//@   ensures old(*code) <= 0 ==> o.authorizationError == old(o.authorizationError)
+//@ func WithCommunicationErrorCode$1
+//@   props C12
+//@   ensures old(*code) > 0 ==> fvinit(o.communicationError, responseWith$1, httpCodeOverride) == old(*code)
+//@   ensures old(*code) <= 0 ==> o.communicationError == old(o.communicationError)
+//@ func WithPreconditionErrorCode$1
+//@   props C12
+//@   ensures old(*code) > 0 ==> fvinit(o.preconditionError, responseWith$1, httpCodeOverride) == old(*code)
+//@   ensures old(*code) <= 0 ==> o.preconditionError == old(o.preconditionError)
+//@ func WithNoRuleErrorCode$1
+//@   props C12
+//@   ensures old(*code) > 0 ==> fvinit(o.noRuleError, responseWith$1, httpCodeOverride) == old(*code)
+//@   ensures old(*code) <= 0 ==> o.noRuleError == old(o.noRuleError)
+//@ func WithInternalServerErrorCode$1
+//@   props C12
+//@   ensures old(*code) > 0 ==> fvinit(o.internalError, responseWith$1, httpCodeOverride) == old(*code)
+//@   ensures old(*code) <= 0 ==> o.internalError == old(o.internalError)
+
+// the same classification, in the same order, as the HTTP error handler (httpClass there)
+//@ spec grpcClass(e error) int = ite(Is(e, heimdall.ErrAuthentication), 1, ite(Is(e, heimdall.ErrAuthorization), 2, ite(Is(e, heimdall.ErrCommunicationTimeout) || Is(e, heimdall.ErrCommunication), 3, ite(Is(e, heimdall.ErrArgument), 4, ite(Is(e, heimdall.ErrNoRuleFound), 5, ite(isRedirectError(e), 6, 7))))))
+
+//@ func (*interceptor).intercept
+//@   props C12 C01
+//@   logparam handler hcall
+//@   ensures hcall.n == old(hcall.n) + 1
+//@   ensures hcall.ret1[old(hcall.n)] == nil ==> ret0 == hcall.ret0[old(hcall.n)] && ret1 == nil
+//@   ensures hcall.ret1[old(hcall.n)] != nil ==> ret1 == nil && isDenied(ret0)
+//@   ensures hcall.ret1[old(hcall.n)] != nil && grpcClass(hcall.ret1[old(hcall.n)]) == 1 && 0 < fvinit(old(h.opts.authenticationError), responseWith$1, httpCodeOverride) && fvinit(old(h.opts.authenticationError), responseWith$1, httpCodeOverride) < 1000 ==> deniedStatus(ret0) == fvinit(old(h.opts.authenticationError), responseWith$1, httpCodeOverride)
+//@   ensures hcall.ret1[old(hcall.n)] != nil && grpcClass(hcall.ret1[old(hcall.n)]) == 2 && 0 < fvinit(old(h.opts.authorizationError), responseWith$1, httpCodeOverride) && fvinit(old(h.opts.authorizationError), responseWith$1, httpCodeOverride) < 1000 ==> deniedStatus(ret0) == fvinit(old(h.opts.authorizationError), responseWith$1, httpCodeOverride)
+//@   ensures hcall.ret1[old(hcall.n)] != nil && grpcClass(hcall.ret1[old(hcall.n)]) == 3 && 0 < fvinit(old(h.opts.communicationError), responseWith$1, httpCodeOverride) && fvinit(old(h.opts.communicationError), responseWith$1, httpCodeOverride) < 1000 ==> deniedStatus(ret0) == fvinit(old(h.opts.communicationError), responseWith$1, httpCodeOverride)
+//@   ensures hcall.ret1[old(hcall.n)] != nil && grpcClass(hcall.ret1[old(hcall.n)]) == 4 && 0 < fvinit(old(h.opts.preconditionError), responseWith$1, httpCodeOverride) && fvinit(old(h.opts.preconditionError), responseWith$1, httpCodeOverride) < 1000 ==> deniedStatus(ret0) == fvinit(old(h.opts.preconditionError), responseWith$1, httpCodeOverride)
+//@   ensures hcall.ret1[old(hcall.n)] != nil && grpcClass(hcall.ret1[old(hcall.n)]) == 5 && 0 < fvinit(old(h.opts.noRuleError), responseWith$1, httpCodeOverride) && fvinit(old(h.opts.noRuleError), responseWith$1, httpCodeOverride) < 1000 ==> deniedStatus(ret0) == fvinit(old(h.opts.noRuleError), responseWith$1, httpCodeOverride)
+//@   ensures hcall.ret1[old(hcall.n)] != nil && grpcClass(hcall.ret1[old(hcall.n)]) == 7 && 0 < fvinit(old(h.opts.internalError), responseWith$1, httpCodeOverride) && fvinit(old(h.opts.internalError), responseWith$1, httpCodeOverride) < 1000 ==> deniedStatus(ret0) == fvinit(old(h.opts.internalError), responseWith$1, httpCodeOverride)
